@@ -650,6 +650,59 @@ def check_rollback_and_wrappers(ctx):
     finish(ctx, ob, bad, 'single-writer/lock-discipline', confirm=lambda: native_rmw_race(ctx))
 
 
+def check_single_writer_helpers(ctx):
+    """the single-operation helpers of SingleWriterTxKeyspace are write transactions of their own: they must take the single-writer lock (write_tx) and commit,
+    never write to the inner keyspace directly - otherwise they slip between the read and the write of another thread's read-modify-write transaction"""
+    for m in ('insert', 'remove', 'remove_weak', 'fetch_update', 'update_fetch'):
+        pat = r'^single_writer::keyspace::<impl>::' + m + '$'
+        ob = ctx.ob(f'helpers/through-lock-{m}', f'SingleWriterTxKeyspace::{m}: runs inside a write transaction obtained from write_tx() (single-writer lock) and commits it; no direct write to the inner keyspace', [pat])
+        try:
+            ex, paths = ctx.run(pat, cache_key='c08.helper.' + m, loop_bound=2,
+                                no_inline=[r'write_tx$', r'WriteTransaction::(insert|remove|remove_weak|commit|fetch_update|update_fetch|rollback)$',
+                                           r'^single_writer::write_tx::<impl>::(insert|remove|remove_weak|commit|fetch_update|update_fetch)$',
+                                           r'^keyspace::<impl>::(insert|remove|remove_weak)$', r'Keyspace::(insert|remove|remove_weak)$'])
+        except KeyError as e:
+            ob.status = 'undecided'; ob.detail = f'function not found: {e}'; continue
+        bad = []
+        for p in paths:
+            if p.status != 'returned' or ctx.sat(p.pc + [ret_is_ok(p)], ob)[0] != z3.sat:
+                continue
+            ob.reach += 1
+            calls = [e.args.get('callee', '') for e in p.events if e.kind == 'CALL']
+            direct = [c for c in calls if c.endswith(('Keyspace::insert', 'Keyspace::remove', 'Keyspace::remove_weak')) or c.startswith('keyspace::<impl>::')]
+            eff = [e for e in p.events if e.kind in ('T_INSERT', 'T_REMOVE', 'T_REMOVE_WEAK', 'J_APPEND')]
+            wt = [i for i, c in enumerate(calls) if c.endswith('write_tx')]
+            cm = [i for i, c in enumerate(calls) if c.endswith('::commit')]
+            txw = [i for i, c in enumerate(calls) if c.endswith(('WriteTransaction::' + m, 'write_tx::<impl>::' + m))]
+            if direct or eff:
+                bad.append((p, f'writes to the inner keyspace directly ({(direct or [eff[0].kind])[0]}) without the single-writer lock: it can land between the read and the write of another thread\'s transaction (lost update)')); continue
+            if not wt or not cm or not txw or not (wt[0] < txw[0] < cm[-1]):
+                bad.append((p, f'acknowledged without write_tx -> transaction write -> commit in this order (calls: {calls[:5]})')); continue
+        finish(ctx, ob, bad, f'SingleWriterTxKeyspace.{m}/bypasses-lock', confirm=lambda: native_helper_race(ctx))
+
+
+def native_helper_race(ctx):
+    """one thread runs read-modify-write transactions on a counter, another thread bumps the same counter with the fetch_update helper... approximated with two
+    rmw loops plus helper writes to a second key that must all be there; then the plain overlay programs"""
+    N = 3000
+    L = ['dir $DIR/db', 'kind single', 'open workers=0', 'ks a', f'spawn_rmw A a 6b31 {N} y', f'spawn_rmw B a 6b31 {N} y']
+    bases = [100000 * (i + 1) for i in range(10)]
+    for bse in bases:
+        L += ['sleep 4', f'hinsert a 6b31 {bse.to_bytes(8, "big").hex()}']
+    L += ['join A', 'join B', 'get a 6b31', 'close']
+    spath, out = ctx.run_scenario('\n'.join(L) + '\n', tag='helper-race')
+    if any(c == 'CRASH' for _i, c, _r in out):
+        return True, spath, 'crash: ' + out[-1][2][-200:]
+    g = [r for _i, c, r in out if c == 'get']
+    if g and g[0].startswith('some:'):
+        val = int(g[0].split(':')[1], 16)
+        # every helper write is a transaction of its own: whatever the interleaving, the last one (10000) is followed only by increments
+        if val < bases[-1] or val > bases[-1] + 2 * N:
+            return True, spath, (f'two threads run read-modify-write transactions on a counter while the main thread sets it to 100000, 200000, ... 1000000 with the single-operation helper: '
+                                 f'the final value is {val}; with the helper serialised against the transactions it must lie in [{bases[-1]}, {bases[-1] + 2 * N}] (a helper write was overwritten by a transaction that had read before it)')
+    return native_tx(ctx)
+
+
 # ------------------------------------------------------------------ native: transaction reference model
 KEYS = ['6b31', '6b32', '6b33', '6b34']
 
@@ -811,6 +864,7 @@ def run(ctx):
     check_rmw(ctx)
     check_commit(ctx)
     check_rollback_and_wrappers(ctx)
+    check_single_writer_helpers(ctx)
     ctx.assumptions += [
         'E2 for the ephemeral memtable (lsm_tree::Memtable): get(key, SeqNo::MAX) returns the entry of that key with the highest seqno; iteration is ordered by key, then seqno descending; '
         'a tree scan handed (memtable, bound) merges the memtable entries with seqno < bound over the snapshot, the highest seqno of a key winning, tombstones hiding the key',
@@ -824,6 +878,7 @@ def run(ctx):
 
 
 MUTANTS = [
+    {'name': 'single-writer helper insert writes to the inner keyspace directly', 'edits': [('src/tx/single_writer/keyspace.rs', "        let mut tx = self.db.write_tx();\n        tx.insert(self, key, value);\n        tx.commit()?;\n        Ok(())", "        self.inner.insert(key, value)")]},
     {'name': 'counter not increased after insert', 'edits': [('src/tx/write_tx.rs', "                lsm_tree::ValueType::Value,\n            ));\n\n        self.seqno += 1;", "                lsm_tree::ValueType::Value,\n            ));")]},
     {'name': 'scan bound is counter - 1', 'edits': [('src/tx/write_tx.rs', "                .map(|mt| (mt, self.seqno)),\n        );\n\n        Iter::new(self.nonce.clone(), iter)\n    }\n\n    fn range", "                .map(|mt| (mt, self.seqno - 1)),\n        );\n\n        Iter::new(self.nonce.clone(), iter)\n    }\n\n    fn range")]},
     {'name': 'get returns own tombstone as value', 'edits': [('src/tx/write_tx.rs', "                return Ok(ignore_tombstone_value(item).map(|x| x.value));\n            }\n        }\n\n        let res = keyspace.tree.get(key, self.nonce.instant)?;", "                return Ok(Some(item.value));\n            }\n        }\n\n        let res = keyspace.tree.get(key, self.nonce.instant)?;")]},
